@@ -1,8 +1,9 @@
 """C16, bounded run-time part — arithmetic and numeric conversions through the real interpreter.
 
 Contract (specs/arith.py, from the Michelson reference) on the real instruction classes of
-pytezos.michelson.instructions.arithmetic / boolean, executed by pytezos.michelson.repl.Interpreter on
-`PUSH b ; PUSH a ; OP`:
+pytezos.michelson.instructions.arithmetic / boolean, executed on `PUSH b ; PUSH a ; OP` the way
+pytezos.michelson.repl.Interpreter.execute does (CodeSection.match(...).execute on a fresh stack; the Octez regression
+vectors additionally go through Interpreter.execute and its text parser):
   requires  (OP, type a, type b) is a dispatch pair of the reference (ADD SUB SUB_MUTEZ MUL EDIV ABS NEG ISNAT INT NAT
             BYTES LSL LSR AND OR XOR NOT over int nat mutez timestamp bytes bool)
   ensures   the instruction accepts the operand types; the result has the reference's type and value
